@@ -32,7 +32,7 @@ def table(tier):
 def cases(tier, seed):
     out = []
     cfgs = [{}, {"step_solver": "Standard", "newton": "Full"}, {"step_solver": "Asymmetric"}, {"newton": "Globalized"},
-            {"step_solver": "Extended", "newton": "ActiveSet"}]
+            {"step_solver": "Extended", "newton": "ActiveSet"}, {"params": {"precision": "Single"}}]
     if tier == "thorough":
         cfgs += [{"step_solver": "Asymmetric", "control": "Exact"}, {"step_solver": "Extended", "newton": "ActiveSet", "penalty": "LagrangianFilter"}]
     for (rows, obj, vk, fmt) in table(tier):
